@@ -20,7 +20,7 @@ RULE = ("Hypothesis-generated expression DAGs (<=10 nodes, earlier nodes reusabl
         "orientations node.const / const.node / node.node (+ - * / // % ** << >> & | ^ @ divmod == != < <= > >=), unary (- + ~ "
         "abs round), [] with constant or reactive index, method and attribute access on the value, and the .rx helpers pipe, "
         "where, and_, or_, not_, bool, len, in_, is_, is_not, map; histories (<=10 steps) of root / parameter updates, batches "
-        "and reads (reads populate caches) with .rx.watch callbacks on some nodes; plus a complete sweep of the operator table "
+        "and reads (reads populate caches) with .rx.watch callbacks on some nodes; the tail of the DAG may be derived in mid-history (after reads and updates of the nodes it builds on); the bind input takes its arguments positionally, or by keyword as Parameters / rx / bound functions; the guard pattern where(d != 0, n // d, c) is generated on purpose; plus a complete sweep of the operator table "
         "(operator x orientation x operand type); oracle = mirror evaluator (value and exact type, or exception class; recovery "
         "after the inputs are valid again) and, for watched nodes, a call carrying the fresh value whenever the plain value "
         "changed. Non-trivial = the DAG has a shared sub-expression or a where/bind/pipe node and the history reads a node, "
@@ -90,7 +90,7 @@ def _dag(draw):
         cands = ["root"]
         ints = of("int", "small", "bool")
         if ints:
-            cands += ["bin", "bin", "bin", "un", "cmp", "smallify", "helper_num", "where", "pipe", "mat"]
+            cands += ["bin", "bin", "bin", "un", "cmp", "smallify", "helper_num", "where", "pipe", "mat", "guard"]
         if of("str"):
             cands += ["strop"]
         if of("list"):
@@ -157,6 +157,18 @@ def _dag(draw):
             x = draw(st.one_of(st.integers(-2, 3).map(lambda v: ["c", v]), st.sampled_from(ints).map(lambda j: ["n", j])))
             y = draw(st.one_of(st.integers(-2, 3).map(lambda v: ["c", v]), st.sampled_from(ints).map(lambda j: ["n", j])))
             nodes.append((["where", c, x, y], "int"))
+        elif k == "guard":
+            # the guard pattern: (d != 0).rx.where(n // d, fallback) - the unselected branch may raise
+            d_ = draw(st.sampled_from(ints))
+            n_ = draw(st.sampled_from(ints))
+            op = draw(st.sampled_from(["//", "%", "/"]))
+            nodes.append((["bin", "!=", ["n", d_], ["c", 0]], "bool"))
+            nodes.append((["bin", op, ["n", n_], ["n", d_]], "float" if op == "/" else "int"))
+            c_, q_ = len(nodes) - 2, len(nodes) - 1
+            if draw(st.booleans()):
+                nodes.append((["where", c_, ["n", q_], ["c", draw(st.integers(-2, 3))]], "int"))
+            else:
+                nodes.append((["where", draw(st.sampled_from(of("bool", "small", "int"))), ["c", 7], ["n", q_]], "int"))
         elif k == "pipe":
             a = draw(st.sampled_from(ints))
             f = draw(st.sampled_from(["double", "plus1", "tostr"]))
@@ -208,6 +220,26 @@ def _dag(draw):
     return [s for s, _t in nodes]
 
 
+def _refs(spec):
+    """indices of the nodes a node is derived from"""
+    k = spec[0]
+    ops = []
+    if k == "bin":
+        ops = [spec[2], spec[3]]
+        return [o[1] for o in ops if o[0] == "n"]
+    if k in ("un", "matmul"):
+        return [spec[2]]
+    if k == "getitem":
+        return [spec[1]] + ([spec[2][1]] if spec[2][0] == "n" else [])
+    if k in ("and_", "or_"):
+        return [spec[1], spec[2]]
+    if k == "where":
+        return [spec[1]] + [o[1] for o in (spec[2], spec[3]) if o[0] == "n"]
+    if k == "root":
+        return []
+    return [spec[1]]
+
+
 @st.composite
 def _case(draw):
     dag = draw(_dag())
@@ -227,8 +259,26 @@ def _case(draw):
     heal = st.integers(0, n - 1).map(lambda i: [["read", i], ["heal", i], ["read", i]])
     steps = draw(st.lists(st.one_of(step.map(lambda s: [s]), rur, heal), min_size=1, max_size=6))
     flat = [s for group in steps for s in group]
-    return {"dag": dag, "inputs": inputs, "watch": draw(st.lists(st.integers(0, n - 1), max_size=2, unique=True)),
-            "steps": flat}
+    case = {"dag": dag, "inputs": inputs, "watch": draw(st.lists(st.integers(0, n - 1), max_size=2, unique=True)),
+            "steps": flat,
+            # how the bind input (slot 7) receives its two arguments
+            "bind_form": draw(st.sampled_from(["pos", "kw_param", "kw_rx", "kw_bound"]))}
+    if n >= 3 and draw(st.booleans()):
+        # the last nodes of the DAG are derived later, in the middle of the history (from nodes whose caches may be stale)
+        lf = case["late_from"] = draw(st.integers(1, n - 1))
+        at = draw(st.integers(0, len(flat)))
+        # ... typically right after an early node a late node builds on was read (cache filled) and one of the inputs
+        # present in the DAG changed (cache stale)
+        bridges = sorted({r for sp in dag[lf:] for r in _refs(sp) if r < lf}) or list(range(lf))
+        slots = sorted({(sp[1] if sp[1] != 7 else 4) for sp in dag[:lf] if sp[0] == "root"}) or [0]
+        slot = draw(st.sampled_from(slots))
+        users = [i for i in range(lf, n) if any(r < lf for r in _refs(dag[i]))] or list(range(lf, n))
+        motif = [["read", draw(st.sampled_from(bridges))], ["set", slot, draw(_inputv(INPUT_TYPES[slot]))], ["build_rest"],
+                 ["read", draw(st.sampled_from(users))]]
+        if draw(st.integers(0, 3)) == 0:
+            motif = [["build_rest"]]
+        flat[at:at] = motif
+    return case
 
 
 def strategy(tier):
@@ -290,7 +340,15 @@ def execute(case):
     P = type("P", (param.Parameterized,), {"a": param.Integer(default=0), "b": param.Integer(default=0)})
     Q = type("Q", (param.Parameterized,), {"c": param.Integer(default=0)})
     p, q = P(a=vals[4], b=vals[5]), Q(c=vals[6])
-    bound = param.bind(lambda a, b: a + b, p.param.a, p.param.b)
+    bf = case.get("bind_form", "pos")
+    if bf == "pos":
+        bound = param.bind(lambda a, b: a + b, p.param.a, p.param.b)
+    elif bf == "kw_param":
+        bound = param.bind(lambda a, b: a + b, a=p.param.a, b=p.param.b)
+    elif bf == "kw_rx":
+        bound = param.bind(lambda a, b: a + b, a=p.param.a.rx(), b=p.param.b.rx())
+    else:
+        bound = param.bind(lambda a, b: a + b, a=param.bind(lambda v: v, p.param.a), b=param.bind(lambda v: v, p.param.b))
 
     def input_rx(i):
         if i < 4:
@@ -322,78 +380,91 @@ def execute(case):
         used[o[1]] = used.get(o[1], 0) + 1
         return rxn[o[1]]
 
-    # ---- build the reactive DAG ---------------------------------------------------
-    for spec in dag:
-        k = spec[0]
-        try:
-            if k == "root":
-                node = input_rx(spec[1])
-            elif k == "bin":
-                a, b = rx_operand(spec[2]), rx_operand(spec[3])
-                node = BINOPS[spec[1]](a, b)
-                marks.add("op:" + spec[1] + ":" + spec[2][0] + spec[3][0])
-            elif k == "un":
-                used[spec[2]] = used.get(spec[2], 0) + 1
-                node = UNOPS[spec[1]](rxn[spec[2]])
-            elif k == "matmul":
-                used[spec[2]] = used.get(spec[2], 0) + 1
-                m = rxn[spec[2]].rx.pipe(Mat)
-                node = (m @ Mat(spec[3])) if spec[1] == "nc" else (Mat(spec[3]) @ m)
-                marks.add("op:@:" + spec[1])
-            elif k == "getitem":
-                used[spec[1]] = used.get(spec[1], 0) + 1
-                node = rxn[spec[1]][rx_operand(spec[2])]
-            elif k == "method":
-                used[spec[1]] = used.get(spec[1], 0) + 1
-                node = getattr(rxn[spec[1]], spec[2])(*spec[3])
-            elif k == "len":
-                used[spec[1]] = used.get(spec[1], 0) + 1
-                node = rxn[spec[1]].rx.len()
-            elif k in ("bool", "not_"):
-                used[spec[1]] = used.get(spec[1], 0) + 1
-                node = getattr(rxn[spec[1]].rx, k)()
-            elif k == "in_":
-                used[spec[1]] = used.get(spec[1], 0) + 1
-                node = rxn[spec[1]].rx.in_(spec[2])
-            elif k in ("is_", "is_not"):
-                used[spec[1]] = used.get(spec[1], 0) + 1
-                node = getattr(rxn[spec[1]].rx, k)(spec[2])
-            elif k in ("and_", "or_"):
-                used[spec[1]] = used.get(spec[1], 0) + 1
-                used[spec[2]] = used.get(spec[2], 0) + 1
-                node = getattr(rxn[spec[1]].rx, k)(rxn[spec[2]])
-            elif k == "where":
-                used[spec[1]] = used.get(spec[1], 0) + 1
-                # .rx.where returns a bound function (with an .rx namespace); param.rx() makes it an expression again
-                node = param.rx(rxn[spec[1]].rx.where(rx_operand(spec[2]), rx_operand(spec[3])))
-                marks.add("where")
-            elif k == "pipe":
-                used[spec[1]] = used.get(spec[1], 0) + 1
-                node = rxn[spec[1]].rx.pipe(PIPES[spec[2]])
-                marks.add("pipe")
-            elif k == "map":
-                used[spec[1]] = used.get(spec[1], 0) + 1
-                node = rxn[spec[1]].rx.map(MAPS[spec[2]])
-            else:
-                raise ValueError(spec)
-        except Exception as e:  # noqa: BLE001
-            # building the expression itself failed: would plain Python fail on the current values too?
-            pv = _plain_all(dag[: len(rxn) + 1], input_plain)
-            if isinstance(pv[-1], _Err) and type(pv[-1].e) is type(e):
-                res.dontcare += 1
-            else:
-                res.fail("C09.operator_form_unsupported", f"building node {len(rxn)} {spec!r} raised {type(e).__name__}: {e} "
-                                                          f"while plain Python gives {pv[-1]!r}")
-            return res
-        rxn.append(node)
+    # ---- build the reactive DAG (possibly in two instalments: the nodes from `late_from` on are derived in mid-history) ----
+    def build_nodes(limit):
+        """builds nodes len(rxn)..limit-1; False = stop the case (recorded as violation or don't-care)"""
+        for spec in dag[len(rxn):limit]:
+            k = spec[0]
+            try:
+                if k == "root":
+                    node = input_rx(spec[1])
+                elif k == "bin":
+                    a, b = rx_operand(spec[2]), rx_operand(spec[3])
+                    node = BINOPS[spec[1]](a, b)
+                    marks.add("op:" + spec[1] + ":" + spec[2][0] + spec[3][0])
+                elif k == "un":
+                    used[spec[2]] = used.get(spec[2], 0) + 1
+                    node = UNOPS[spec[1]](rxn[spec[2]])
+                elif k == "matmul":
+                    used[spec[2]] = used.get(spec[2], 0) + 1
+                    m = rxn[spec[2]].rx.pipe(Mat)
+                    node = (m @ Mat(spec[3])) if spec[1] == "nc" else (Mat(spec[3]) @ m)
+                    marks.add("op:@:" + spec[1])
+                elif k == "getitem":
+                    used[spec[1]] = used.get(spec[1], 0) + 1
+                    node = rxn[spec[1]][rx_operand(spec[2])]
+                elif k == "method":
+                    used[spec[1]] = used.get(spec[1], 0) + 1
+                    node = getattr(rxn[spec[1]], spec[2])(*spec[3])
+                elif k == "len":
+                    used[spec[1]] = used.get(spec[1], 0) + 1
+                    node = rxn[spec[1]].rx.len()
+                elif k in ("bool", "not_"):
+                    used[spec[1]] = used.get(spec[1], 0) + 1
+                    node = getattr(rxn[spec[1]].rx, k)()
+                elif k == "in_":
+                    used[spec[1]] = used.get(spec[1], 0) + 1
+                    node = rxn[spec[1]].rx.in_(spec[2])
+                elif k in ("is_", "is_not"):
+                    used[spec[1]] = used.get(spec[1], 0) + 1
+                    node = getattr(rxn[spec[1]].rx, k)(spec[2])
+                elif k in ("and_", "or_"):
+                    used[spec[1]] = used.get(spec[1], 0) + 1
+                    used[spec[2]] = used.get(spec[2], 0) + 1
+                    node = getattr(rxn[spec[1]].rx, k)(rxn[spec[2]])
+                elif k == "where":
+                    used[spec[1]] = used.get(spec[1], 0) + 1
+                    # .rx.where returns a bound function (with an .rx namespace); param.rx() makes it an expression again
+                    node = param.rx(rxn[spec[1]].rx.where(rx_operand(spec[2]), rx_operand(spec[3])))
+                    marks.add("where")
+                elif k == "pipe":
+                    used[spec[1]] = used.get(spec[1], 0) + 1
+                    node = rxn[spec[1]].rx.pipe(PIPES[spec[2]])
+                    marks.add("pipe")
+                elif k == "map":
+                    used[spec[1]] = used.get(spec[1], 0) + 1
+                    node = rxn[spec[1]].rx.map(MAPS[spec[2]])
+                else:
+                    raise ValueError(spec)
+            except Exception as e:  # noqa: BLE001
+                # building the expression itself failed: would plain Python fail on the current values too?
+                pv = _plain_all(dag[: len(rxn) + 1], input_plain)
+                if isinstance(pv[-1], _Err) and type(pv[-1].e) is type(e):
+                    res.dontcare += 1
+                else:
+                    res.fail("C09.operator_form_unsupported", f"building node {len(rxn)} {spec!r} raised {type(e).__name__}: {e} "
+                                                              f"while plain Python gives {pv[-1]!r}")
+                return False
+            rxn.append(node)
+        return True
+
+    late_from = case.get("late_from") or len(dag)
+    if not build_nodes(late_from):
+        return res
     if any(c >= 2 for c in used.values()):
         marks.add("shared_subexpression")
     if any(s[0] == "root" and s[1] == 7 for s in dag):
         marks.add("bind")
 
     watch_log = {i: [] for i in case["watch"]}
-    for i in case["watch"]:
-        rxn[i].rx.watch(lambda v, i=i: watch_log[i].append(v))
+    watched = set()
+
+    def install_watches():
+        for i in case["watch"]:
+            if i < len(rxn) and i not in watched:
+                watched.add(i)
+                rxn[i].rx.watch(lambda v, i=i: watch_log[i].append(v))
+    install_watches()
 
     def read(i, tag):
         want = _plain_all(dag, input_plain)[i]
@@ -426,8 +497,17 @@ def execute(case):
     for si, step in enumerate(case["steps"]):
         tag = f"step{si}:{step!r}"
         k = step[0]
+        if k == "build_rest":
+            if len(rxn) < len(dag):
+                marks.add("derived_in_mid_history")
+                if not build_nodes(len(dag)):
+                    return res
+                install_watches()
+            continue
         if k == "read":
             i = step[1] % len(dag)
+            if i >= len(rxn):
+                continue            # not derived yet
             read(i, tag)
             want = _plain_all(dag, input_plain)[i]
             errored[i] = isinstance(want, _Err)
@@ -488,6 +568,8 @@ def execute(case):
                 updated_since[i] = True
             after = _plain_all(dag, input_plain)
             for w, log in watch_log.items():
+                if w not in watched:
+                    continue
                 b, a = before[w], after[w]
                 if isinstance(b, _Err) or isinstance(a, _Err):
                     continue
